@@ -22,6 +22,8 @@ type MemDevice struct {
 	LastReadOff int64
 	// OnWrite is called (without the lock) before a write is applied; it may block (gating).
 	OnWrite func(off int64, p []byte)
+	// OnRead is called (without the lock) before a read is served.
+	OnRead func(off int64, n int)
 }
 
 // DevWrite is one WriteAt call.
@@ -33,6 +35,9 @@ type DevWrite struct {
 func NewMemDevice(size int) *MemDevice { return &MemDevice{Data: make([]byte, size)} }
 
 func (d *MemDevice) ReadAt(p []byte, off int64) (int, error) {
+	if h := d.OnRead; h != nil {
+		h(off, len(p))
+	}
 	d.mu.Lock()
 	defer d.mu.Unlock()
 	if off < 0 || off > int64(len(d.Data)) {
